@@ -61,7 +61,7 @@ UNIT = dict(
                        (r"input->eof\(\) \|\| !getline\(\*input, token, m_hasTime && i == 2 \? ' ' : '\.'\)", 'env_eof(input) || !env_getline(input, &token)', 1),
                        (r'input->eof\(\) \|\| !getline\(\*input, token, LENGTH_SEPARATOR\)', 'env_eof(input) || !env_getline(input, &token)', 1),
                        (r'token == NULL_VALUE', 'env_tok_null(input, token)', 2),
-                       (r'parseInt\(token\.c_str\(\), 10, ([^,]+), ([^,]+), &result\)', lambda m: 'env_tok_int(input, token, %s, %s, &result)' % (m.group(1), m.group(2)), 2)]),
+                       (r'parseInt\(token\.c_str\(\), (\w+), ([^,]+), ([^,]+), &result\)', lambda m: 'env_tok_int_b(input, token, %s, %s, %s, &result)' % (m.group(1), m.group(2), m.group(3)), 2)]),
         dict(_inl, name='isIgnored', cname='STT_isIgnored', static=True, self='STT'),
         dict(file=DT_CPP, name='StringDataType::writeSymbols', cname='STT_writeSymbols', self='STT',
              cfg=dict(methods={'dataAt': 'SymbolString_dataAt_nc', 'eof': 'cs_eof', 'peek': 'cs_peek', 'get': 'cs_get', 'clear': 'tok2_clear', 'push_back': 'tok2_push', 'c_str': 'tok2_cstr'},
